@@ -6,6 +6,7 @@ package grandpa
 import (
 	"fmt"
 	"testing"
+	"time"
 
 	"github.com/ChainSafe/gossamer/dot/network"
 	"github.com/ChainSafe/gossamer/internal/verifchk/c33h"
@@ -221,5 +222,58 @@ func TestC33GrandpaSelfCheck(t *testing.T) {
 			dd.Judge(t, in, "regression")
 			kit.Case(fmt.Sprintf("%s regression in=%x", dd.Name, in), true, dd.Name+"/regression")
 		}
+	}
+}
+
+// TestC33GrandpaScaling: commit and catch-up response messages dominated by
+// many votes / signatures at N and 8N elements, see TestC33Scaling.
+func TestC33GrandpaScaling(t *testing.T) {
+	defer kit.Flush()
+	old := c33h.HangAfter
+	c33h.HangAfter = 10 * time.Minute
+	defer func() { c33h.HangAfter = old }()
+	d := c33gDecoders["GrandpaMessage"]
+	vote := func(i int) Vote {
+		var h common.Hash
+		for j := range h {
+			h[j] = byte(i + j)
+		}
+		return Vote{Hash: h, Number: uint32(i)}
+	}
+	signed := func(i int) SignedVote {
+		sv := SignedVote{Vote: vote(i)}
+		for j := range sv.Signature {
+			sv.Signature[j] = byte(i*3 + j)
+		}
+		for j := range sv.AuthorityID {
+			sv.AuthorityID[j] = byte(i*5 + j)
+		}
+		return sv
+	}
+	scenarios := []c33h.Scenario{
+		{Name: "GrandpaMessage/commit-many-precommits", D: d, Build: func(n, _ int) any {
+			m := &CommitMessage{Round: 3, SetID: 1, Vote: vote(0)}
+			for i := 0; i < n; i++ {
+				sv := signed(i)
+				m.Precommits = append(m.Precommits, sv.Vote)
+				m.AuthData = append(m.AuthData, AuthData{Signature: sv.Signature, AuthorityID: sv.AuthorityID})
+			}
+			return m
+		}},
+		{Name: "GrandpaMessage/catch-up-response-many-votes", D: d, Build: func(n, _ int) any {
+			m := &CatchUpResponse{SetID: 1, Round: 3, Hash: vote(1).Hash, Number: 9}
+			for i := 0; i < n; i++ {
+				if i%2 == 0 {
+					m.PreVoteJustification = append(m.PreVoteJustification, signed(i))
+				} else {
+					m.PreCommitJustification = append(m.PreCommitJustification, signed(i))
+				}
+			}
+			return m
+		}},
+	}
+	seed := c33h.ScalingSeed()
+	for i, sc := range scenarios {
+		c33h.RunScaling(t, sc, seed*100+50+i)
 	}
 }
